@@ -28,6 +28,14 @@
 (* cpputest_malloc/calloc/strdup/strndup each perform exactly one C        *)
 (* allocation and return NULL exactly when it fails.                       *)
 (*                                                                         *)
+(* Part 3: the malloc statistics of the C interface.  cpputest_malloc_get_   *)
+(* count returns the number of C allocations (successful or not) since     *)
+(* cpputest_malloc_count_reset (`mc').  The statistics and the injection   *)
+(* are two features over the same allocations: counting, reading and       *)
+(* resetting the statistics leaves the injection alone (the countdown      *)
+(* keeps running from where it was), and arming / clearing the injection   *)
+(* leaves the statistics alone.                                            *)
+(*                                                                         *)
 (* `last' = what the caller observes of the last call (res) and what the   *)
 (* textbook layer says it should be (want).                                *)
 (***************************************************************************)
@@ -37,23 +45,26 @@ CONSTANTS Locs,        \* source locations (naturals >= 1)
           Ns,          \* designation numbers explored by the model
           Countdowns,  \* countdown values (naturals) explored by the model; -1 (no countdown) is always explored
           MaxAllocs,   \* bound on allocations per clear period in the model
-          MaxPending   \* bound on simultaneously pending designations in the model
+          MaxPending,  \* bound on simultaneously pending designations in the model
+          MaxCount     \* bound on the malloc statistics counter in the model
 
 VARIABLES pending, count,          \* failable allocator, implementation-shaped
           todo, lc,                \* failable allocator, textbook ghost
           cd, oom,                 \* C interface: countdown (-1 = none), out of memory
           cn, cseen, forced,       \* C interface, ghost: argument of the last countdown, C allocations since, oom forced otherwise
+          mc,                      \* C interface: malloc statistics, C allocations since the last count reset
           last
 
 fvars == <<pending, count, todo, lc>>
-cvars == <<cd, oom, cn, cseen, forced>>
-vars == <<pending, count, todo, lc, cd, oom, cn, cseen, forced, last>>
+cvars == <<cd, oom, cn, cseen, forced, mc>>
+injvars == <<pending, count, todo, lc, cd, oom, cn, cseen, forced>>
+vars == <<pending, count, todo, lc, cd, oom, cn, cseen, forced, mc, last>>
 
 CFns == {"malloc", "calloc", "strdup", "strndup"}
 Outcome(op, res, want) == [op |-> op, res |-> res, want |-> want]
 
 Init == /\ pending = <<>> /\ count = 0 /\ todo = {} /\ lc = [x \in Locs |-> 0]
-        /\ cd = -1 /\ oom = FALSE /\ cn = -1 /\ cseen = 0 /\ forced = FALSE
+        /\ cd = -1 /\ oom = FALSE /\ cn = -1 /\ cseen = 0 /\ forced = FALSE /\ mc = 0
         /\ last = Outcome("init", "none", FALSE)
 
 -----------------------------------------------------------------------------
@@ -62,14 +73,14 @@ FailNumber(n) ==
     /\ pending' = <<[g |-> TRUE, loc |-> 0, n |-> n, seen |-> 0]>> \o pending
     /\ todo' = todo \cup {[g |-> TRUE, loc |-> 0, target |-> n]}
     /\ last' = Outcome("failnum", "none", FALSE)
-    /\ UNCHANGED <<count, lc, cd, oom, cn, cseen, forced>>
+    /\ UNCHANGED <<count, lc, cd, oom, cn, cseen, forced, mc>>
 
 \* failNthAllocAt(n, loc): the n-th allocation made at loc from now on must fail
 FailAt(loc, n) ==
     /\ pending' = <<[g |-> FALSE, loc |-> loc, n |-> n, seen |-> 0]>> \o pending
     /\ todo' = todo \cup {[g |-> FALSE, loc |-> loc, target |-> lc[loc] + n]}
     /\ last' = Outcome("failat", "none", FALSE)
-    /\ UNCHANGED <<count, lc, cd, oom, cn, cseen, forced>>
+    /\ UNCHANGED <<count, lc, cd, oom, cn, cseen, forced, mc>>
 
 \* the pending designations that name the next allocation, made at loc
 Matching(loc) == { i \in 1..Len(pending) :
@@ -95,7 +106,7 @@ Alloc(loc, C) == FAlloc(loc, C, "alloc") /\ UNCHANGED cvars
 \* checkAllFailedAllocsWereDone: fails the test when a designation is still pending
 CheckDone ==
     /\ last' = Outcome("checkdone", IF pending # <<>> THEN "reported" ELSE "ok", todo # {})
-    /\ UNCHANGED <<pending, count, todo, lc, cd, oom, cn, cseen, forced>>
+    /\ UNCHANGED <<pending, count, todo, lc, cd, oom, cn, cseen, forced, mc>>
 
 \* clearFailedAllocs: forget every designation, restart the numbering
 Clear ==
@@ -109,38 +120,48 @@ Countdown(n) ==
     /\ cd' = n /\ oom' = (oom \/ n = 0)
     /\ cn' = n /\ cseen' = 0 /\ forced' = oom
     /\ last' = Outcome("countdown", "none", FALSE)
-    /\ UNCHANGED fvars
+    /\ UNCHANGED <<fvars, mc>>
 SetOOM ==
     /\ oom' = TRUE /\ forced' = TRUE /\ last' = Outcome("setoom", "none", FALSE)
-    /\ UNCHANGED <<pending, count, todo, lc, cd, cn, cseen>>
+    /\ UNCHANGED <<pending, count, todo, lc, cd, cn, cseen, mc>>
 \* cpputest_malloc_set_not_out_of_memory: the injection is cleared, the test's allocator is back
 SetNotOOM ==
     /\ oom' = FALSE /\ cd' = -1 /\ cn' = -1 /\ cseen' = 0 /\ forced' = FALSE
     /\ last' = Outcome("setnotoom", "none", FALSE)
-    /\ UNCHANGED fvars
+    /\ UNCHANGED <<fvars, mc>>
 
 \* cpputest_malloc / calloc / strdup / strndup at loc: one C allocation
 CAlloc(fn, loc, C) ==
     LET cd2 == IF cd > 0 THEN cd - 1 ELSE cd
         oom2 == oom \/ (cd > 0 /\ cd2 = 0) IN
-    /\ cd' = cd2 /\ oom' = oom2 /\ cseen' = cseen + 1 /\ UNCHANGED <<cn, forced>>
+    /\ cd' = cd2 /\ oom' = oom2 /\ cseen' = cseen + 1 /\ mc' = mc + 1 /\ UNCHANGED <<cn, forced>>
     /\ IF oom2 THEN /\ last' = Outcome(fn, "null", forced \/ (cn >= 0 /\ cseen + 1 >= cn))
                     /\ UNCHANGED fvars
                ELSE FAlloc(loc, C, fn)
+
+\* cpputest_malloc_count_reset: the statistics restart; the injection is not touched
+CountReset ==
+    /\ mc' = 0 /\ last' = Outcome("countreset", "none", FALSE)
+    /\ UNCHANGED injvars
+\* cpputest_malloc_get_count: reads the statistics (the value read is mc)
+GetCount ==
+    /\ last' = Outcome("getcount", "none", FALSE)
+    /\ UNCHANGED <<injvars, mc>>
 
 Next == \/ \E n \in Ns : Len(pending) < MaxPending /\ (FailNumber(n) \/ \E x \in Locs : FailAt(x, n))
         \/ \E x \in Locs : count < MaxAllocs /\ \E C \in SUBSET Matching(x) : Alloc(x, C)
         \/ CheckDone \/ Clear
         \/ \E n \in Countdowns \cup {-1} : Countdown(n)
         \/ SetOOM \/ SetNotOOM
-        \/ \E f \in CFns, x \in Locs : count < MaxAllocs /\ cseen < MaxAllocs /\ \E C \in SUBSET Matching(x) : CAlloc(f, x, C)
+        \/ CountReset \/ GetCount
+        \/ \E f \in CFns, x \in Locs : count < MaxAllocs /\ cseen < MaxAllocs /\ mc < MaxCount /\ \E C \in SUBSET Matching(x) : CAlloc(f, x, C)
 
 Spec == Init /\ [][Next]_vars
 
 -----------------------------------------------------------------------------
 \* Properties (C15)
 AllocOps == {"alloc"} \cup CFns
-TypeOK == /\ count \in Nat /\ cd \in Int /\ oom \in BOOLEAN /\ forced \in BOOLEAN /\ cseen \in Nat
+TypeOK == /\ count \in Nat /\ cd \in Int /\ oom \in BOOLEAN /\ forced \in BOOLEAN /\ cseen \in Nat /\ mc \in Nat
           /\ \A i \in 1..Len(pending) : pending[i].seen \in Nat
           /\ last.res \in {"none", "ok", "null", "reported"}
 \* exactly the designated allocations fail: the verdict of every allocation is the textbook one
@@ -158,5 +179,9 @@ ClearRestores == last.op = "clear" => pending = <<>> /\ todo = {} /\ count = 0
 CountdownFires == (cn >= 0 /\ cseen >= cn) => oom
 CountdownNotEarly == (cn > 0 /\ cseen < cn /\ ~forced) => ~oom
 NotOomRestores == last.op = "setnotoom" => ~oom /\ cd = -1
+\* the statistics count every C allocation and nothing else; reading / resetting them does not move the injection
+CountResetZeroes == last.op = "countreset" => mc = 0
+CountsCAllocs == [][mc' = IF last'.op \in CFns THEN mc + 1 ELSE IF last'.op = "countreset" THEN 0 ELSE mc]_vars
+StatsLeaveInjection == [][last'.op \in {"countreset", "getcount"} => UNCHANGED injvars]_vars
 OomMeansNull == [][(last'.op \in CFns /\ oom') => last'.res = "null"]_vars
 =============================================================================
